@@ -136,6 +136,17 @@ def check_fault(case, f, m, out, log, idx):
             e = [x for x in r.errors if x not in hit][0]
             out.violate('collateral', 'collateral|%s|%s%s' % (sigbase, e.level, e.code), '%s: additional error: %r %s' % (tag, e, e.msg), fault=f)
         return
+    if f.get('ctx') == 'gap':
+        # a segment between the envelope segments belongs to no set: rejected, reported, and filed under no set
+        inset = [e for e in r.errors if e.st is not None]
+        if inset:
+            e = inset[0]
+            out.violate('position', 'wrong-position|' + sigbase, '%s (after %s, outside any set): error filed under set %s of group %s: %r %s' % (
+                tag, doc[f['line']]['id'], e.st, e.gs, e, e.msg), fault=f)
+        elif len(r.errors) != 1:
+            out.violate('collateral', 'collateral|%s|n%d' % (sigbase, len(r.errors)), '%s (after %s): %d errors reported for one stray segment: %r' % (
+                tag, doc[f['line']]['id'], len(r.errors), r.errors[:4]), fault=f)
+        return
     set_ord, pos_in_set = set_coords(mutated, where)
     coords = st_index_of(r, set_ord)
     slack = f.get('slack', 0)
